@@ -11,6 +11,8 @@ func init() { register("C01", checkC01) }
 
 func checkC01(cx *Ctx, r *Report) {
 	w, fx := cx.W, cx.Fx
+	// a failed reply must not carry an earlier Success message kept somewhere else (shared with C18)
+	cx.checkSendsWhatItIsGiven(r)
 	// request data must not be shared between requests through recycled buffers (R-POOL, see C15)
 	cx.checkPoolEscape(r)
 	r.Clauses = []string{
